@@ -12,10 +12,10 @@ CLAIMED = {
             'All interleavings (at yield-point granularity, exhaustive for 2-goroutine scenarios, preemption-bounded for 3) of RunCode/ModuleInit/ResolveAndCompile/Close/Done-wait are executed on the real context; each execution is judged by ordering/exactly-once rules over a logical-clock event log and by porcupine; free-running rounds run under -race.',
             'Granularity = H1 yield points (code between two points is atomic under the scheduler); blocked-detection by stack sampling; >3 goroutines only in free-running stress.', '6/C09'),
     'C12': ('exploration', 'emitted-artifact invariant monitor (bytecode verifier by abstract interpretation over all static paths) plus dynamic stack/block-depth conformance at every executed instruction via hook H2',
-            'Every code object compiled from the corpus (all repository .py files, seeded structurally rich generated programs, block stressors) is verified on all static paths against the VM semantics, and every executed instruction is compared with the predicted depth set; held = on those code objects and executions.',
+            'Every code object compiled from the corpus (all repository .py files, seeded structurally rich generated programs, full-grammar modules of the C06 generator run over a universal object, definition forms - decorators x defaults x keyword-only defaults x annotations x closure x */** x lambda x context -, block stressors) is verified on all static paths against the VM semantics, and every executed instruction is compared with the predicted depth set; held = on those code objects and executions.',
             'The verifier is a model of vm/eval.go written by hand; the dynamic monitor cross-validates it. Corpus-bounded.', '6/C12'),
     'C11': ('exploration', 'boundary observation of (code, err) of py.Compile in isolated worker processes under recover() and a watchdog; accepted code is passed to the bytecode verifier',
-            'Exhaustive short fragment sequences, seeded random sequences with invalid UTF-8, mutations of real programs and size stress are compiled in all three modes; every outcome must be a code object or a SyntaxError-family exception with filename/lineno/offset - never a panic, abort, reproduced hang or internal error type.',
+            'Exhaustive short fragment sequences, seeded random sequences with invalid UTF-8, mutations of real programs, hostile assignment targets, full-grammar texts and their mutations, nested scope shapes and size stress are compiled in all three modes; every outcome must be a code object or a SyntaxError-family exception with filename/lineno/offset - never a panic, abort, reproduced hang or internal error type.',
             'Watchdog-based bounded progress instead of termination; input space bounded by the enumerations.', '6/C11'),
     'C18': ('exploration', 'self-reference monitor: canonical deep dump of every compiled code object compared with the first dump of the same input across repeats, interleavings, worker processes, concurrent goroutines (race detector) and two Go toolchains',
             'Every source of the corpus is compiled >=12 times (64+ in thorough) in three processes interleaved with other compilations and concurrently from 16 goroutines under -race while contexts run; all dumps of one input must be byte-identical.',
@@ -33,14 +33,14 @@ CLAIMED = {
             'All depth-1 scope nestings x name roles (depth 2 sampled/exhaustive), classic closure patterns in six alpha-renamed spellings; every program is recompiled 8/64 times and the dumps must agree.',
             'CPython 3.11 scoping equals 3.4 on the generated fragment; name mangling, super/__class__ not covered.', '6/C03'),
     'C08': ('exploration', 'self-reference monitor (observation in a polluted process vs solo observation in a fresh process) + Go race detector over concurrent contexts with yields injected at instruction boundaries (hook H2)',
-            'Every (polluter, observer) pair runs in its own process: observer in a fresh context after the polluter; N contexts run concurrently under -race with a shared code object, REPL sessions and a Go module imported by all; concurrent compilation.',
+            'Every (polluter, observer) pair runs in its own process: observer in a fresh context after the polluter; N contexts run concurrently under -race with a shared code object, REPL sessions and a Go module imported by all; concurrent compilation. Polluters include every dict/list among the globals of every importable Go module, os.environ and state attached to runtime-raised exception objects.',
             'Interleavings are those the Go scheduler produced with the injected yields; process-wide resources shared by nature are excluded.', '6/C08'),
     'C10': ('exploration', 'crash monitor: recover() around every call of every builtin / type-dict callable / operator / compiled snippet over a value universe, worker exit status with progress-log attribution',
             'Every callable reachable from builtins and from the attribute table of each universe value\'s type, every operator entry point and 143 source snippets are applied to all argument tuples of arity 0-2 (3 over a sub-universe); any Go panic or process abort is a violation; pure CPU timeouts are inconclusive.',
-            'Universe of 68 values; huge-size arguments only sampled in quick.', '6/C10'),
+            'Universe of 75 values incl. instances of Python subclasses of built-in types (inherited Go methods enumerated through the MRO), an object whose special methods return wrong-typed values, non-pair items; plus generated programs, full-grammar modules over a universal object and re-entrant callback programs (container operation x mutation from inside the callback); huge-size arguments only sampled in quick; out-of-memory aborts of huge repetitions are a known finding.', '6/C10'),
     'C13': ('exploration', 'reference-model monitor: first-principles sequence model cross-validated per case against CPython, over an exhaustive (type, length, start, stop, step) lattice via the Go API and compiled source',
             'All index/slice/set-slice/del-slice/concat/repeat/compare/contains/iteration operations on str, list, tuple, range, bytes of length 0..6 over the index lattice; operands must be unchanged and results must not alias.',
-            'Lengths > 6 only in a random tail; six unimplemented feature pairs are skipped via a re-probed allowlist.', '6/C13'),
+            'Lengths > 6 only in a random tail; six unimplemented feature pairs are skipped via a re-probed allowlist. Operands also with other construction histories (list built by append / shortened; tuple, str, list as the leading slice of a longer parent that must stay intact, or built from an iterator) and a second look: + and * run again with another right operand and the first result read again.', '6/C13'),
     'C14': ('exploration', 'reference-model monitor: string operations as code-point lists vs CPython over all short strings of a mixed-width alphabet; Go-level deep equality for repr->eval round trips',
             'All strings up to length 3 (4 thorough) plus sampled longer ones x every named operation and argument position; repr round trip of str, bytes, ints, floats and nested tuples/lists judged on encodings.',
             'Case mapping and Unicode-database dependent behaviour excluded.', '6/C14'),
